@@ -534,7 +534,7 @@ func c19Bundle(p *Prog, r *Report) {
 		bad = append(bad, fmt.Sprintf("%d tls.Config literals in LoadBundleZip", len(lits)))
 	}
 	for li, lit := range lits {
-		fn := litFn[li]
+		_ = litFn[li]
 		if _, ok := lit["InsecureSkipVerify"]; ok {
 			bad = append(bad, "the bundle config disables verification")
 		}
@@ -544,20 +544,44 @@ func c19Bundle(p *Prog, r *Report) {
 			bad = append(bad, "RootCAs not set: the bundle CA is not trusted / any public CA is")
 		} else {
 			appended := false
-			eachCall(fn, func(c ssa.CallInstruction) {
-				if f := c.Common().StaticCallee(); f != nil && f.String() == "(*crypto/x509.CertPool).AppendCertsFromPEM" && c.Common().Args[0] == rc {
-					// result checked
-					if v, ok := c.(ssa.Value); ok {
-						for _, ref := range *v.Referrers() {
-							if _, isIf := ref.(*ssa.If); isIf {
-								appended = true
+			// the pool may reach the literal through a parameter of a private constructor helper
+			pool := map[ssa.Value]bool{rc: true}
+			for _, o := range originsInter(p, rc, 2) {
+				pool[o] = true
+			}
+			samePool := func(v ssa.Value) bool {
+				if pool[v] {
+					return true
+				}
+				for _, o := range origins(v) {
+					if pool[o] {
+						return true
+					}
+				}
+				return false
+			}
+			for _, af := range withCallees(p, p.Func("astra", "LoadBundleZip"), 2) {
+				eachCall(af, func(c ssa.CallInstruction) {
+					if f := c.Common().StaticCallee(); f != nil && f.String() == "(*crypto/x509.CertPool).AppendCertsFromPEM" && samePool(c.Common().Args[0]) {
+						// result checked
+						if v, ok := c.(ssa.Value); ok {
+							for _, ref := range *v.Referrers() {
+								if _, isIf := ref.(*ssa.If); isIf {
+									appended = true
+								}
 							}
 						}
 					}
-				}
-			})
+				})
+			}
 			if !appended {
 				bad = append(bad, "the bundle's CA certificate is not appended to RootCAs with its result checked")
+			}
+			// the pool the bundle CA is appended to belongs to this bundle alone: a pool kept in a
+			// package variable and handed to every bundle collects the CAs of all bundles loaded in
+			// the process, and each of them becomes a trust root of every other bundle
+			if why := sharedPool(p, rc, 3); why != "" {
+				bad = append(bad, "the root pool of the bundle is shared between bundles ("+why+"): a certificate issued by another bundle's CA is accepted")
 			}
 		}
 		// Certificates from X509KeyPair
@@ -570,7 +594,7 @@ func c19Bundle(p *Prog, r *Report) {
 							if ia, ok := ref.(*ssa.IndexAddr); ok {
 								for _, rr := range *ia.Referrers() {
 									if st, ok := rr.(*ssa.Store); ok {
-										for _, so := range origins(st.Val) {
+										for _, so := range originsInter(p, st.Val, 2) {
 											if ex, ok := so.(*ssa.Extract); ok {
 												if c, ok := ex.Tuple.(*ssa.Call); ok && callIsFunc(c, "crypto/tls", "X509KeyPair") {
 													okCert = true
@@ -723,4 +747,59 @@ func c19HandshakeFirst(p *Prog, r *Report) {
 		}
 		r.check(len(bad) == 0, rule, fmt.Sprintf("proxycore.Connect[tls=%v]", tlsOn), p.Pos(fn.Pos()), fmt.Sprintf("%d paths", len(outs)), strings.Join(dedupe(bad), " || "))
 	}
+}
+
+
+// sharedPool: v (a *x509.CertPool) can be an object that outlives the call: it is read from a
+// package-level variable (possibly inside a helper) instead of being created by
+// x509.SystemCertPool(), x509.NewCertPool() or Clone() for this use.  Returns the reason, "" if not.
+func sharedPool(p *Prog, v ssa.Value, depth int) string {
+	for _, o := range originsInter(p, v, 2) {
+		if ex, ok := o.(*ssa.Extract); ok {
+			o = ex.Tuple
+		}
+		switch x := o.(type) {
+		case *ssa.UnOp:
+			if g, ok := x.X.(*ssa.Global); ok && x.Op == token.MUL {
+				return "read from the package variable " + g.Name()
+			}
+		case *ssa.Call:
+			callee := x.Call.StaticCallee()
+			if callee == nil {
+				continue
+			}
+			switch callee.String() {
+			case "crypto/x509.SystemCertPool", "crypto/x509.NewCertPool", "(*crypto/x509.CertPool).Clone":
+				continue
+			}
+			if !p.InRepo(callee) || callee.Blocks == nil || depth == 0 {
+				continue
+			}
+			why := ""
+			for _, f := range withClosures(callee) {
+				eachInstr(f, func(in ssa.Instruction) {
+					// a pool stored into a package variable by the helper (a process-wide cache)
+					if st, ok := in.(*ssa.Store); ok {
+						if g, ok := st.Addr.(*ssa.Global); ok && typeIsNamed(st.Val.Type(), "crypto/x509", "CertPool") {
+							why = "kept in the package variable " + g.Name() + " by " + callee.Name()
+						}
+					}
+				})
+			}
+			eachInstr(callee, func(in ssa.Instruction) {
+				if ret, ok := in.(*ssa.Return); ok && len(ret.Results) > 0 && why == "" {
+					why = sharedPool(p, ret.Results[0], depth-1)
+				}
+			})
+			if why != "" {
+				return why
+			}
+		}
+	}
+	return ""
+}
+
+func typeIsNamed(t types.Type, pkgPath, name string) bool {
+	n := namedOf(t)
+	return n != nil && n.Obj().Name() == name && n.Obj().Pkg() != nil && n.Obj().Pkg().Path() == pkgPath
 }
